@@ -370,7 +370,9 @@ class Rule(NamedBox):
 
     @staticmethod
     def param_repr(p):
-        if isinstance(p, int | float) or (isinstance(p, str) and p.isalnum()):
+        # NOTE: a str that reads as another literal (True, 1, 2d) must stay quoted
+        bare = isinstance(p, str) and p.isidentifier() and p not in {'True', 'False', 'None'}
+        if isinstance(p, int | float) or p is None or bare:
             return str(p)
         else:
             return repr(p)
